@@ -476,15 +476,39 @@ pub fn conc_child(path: &str, threads: usize, seed: u64, rounds: usize) {
         long.extend_from_slice(&needle);
         let finder = memmem::Finder::new(&needle);
         let rfinder = memmem::FinderRev::new(&needle);
+        // the low-level building blocks are shared as well, each fresh per round so that their first uses race
+        let tw = memchr::arch::all::twoway::Finder::new(&needle);
+        let rk = memchr::arch::all::rabinkarp::Finder::new(&needle);
+        let pp = memchr::arch::all::packedpair::Finder::new(&needle);
+        #[cfg(feature = "alloc")]
+        let so = memchr::arch::all::shiftor::Finder::new(&needle);
         let mut it0 = finder.find_iter(&long);
         let first = it0.next();
         let bar = Barrier::new(threads);
         let res: Mutex<Vec<(usize, i64, i64, i64, Vec<usize>)>> = Mutex::new(Vec::new());
+        let blocks: Mutex<Vec<(usize, &'static str, i64)>> = Mutex::new(Vec::new());
         std::thread::scope(|s| {
             for tid in 0..threads {
                 let (finder, rfinder, it0, bar, res, short, long) = (&finder, &rfinder, &it0, &bar, &res, &short, &long);
+                let (tw, rk, pp, blocks, needle) = (&tw, &rk, &pp, &blocks, &needle);
+                #[cfg(feature = "alloc")]
+                let so = &so;
                 s.spawn(move || {
                     bar.wait();
+                    let mut mine: Vec<(usize, &'static str, i64)> = Vec::new();
+                    #[cfg(feature = "alloc")]
+                    if let Some(so) = so {
+                        mine.push((tid, "shiftor::Finder::find", opt_to_i(so.find(long))));
+                    }
+                    mine.push((tid, "twoway::Finder::find", opt_to_i(tw.find(long, needle))));
+                    mine.push((tid, "rabinkarp::Finder::find", opt_to_i(rk.find(long, needle))));
+                    if let Some(pp) = pp {
+                        if let Some(c) = pp.find_prefilter(long) {
+                            // a candidate is never past the first occurrence
+                            mine.push((tid, "packedpair candidate <= first occurrence", if c <= first.unwrap_or(usize::MAX) { opt_to_i(first) } else { c as i64 }));
+                        }
+                    }
+                    blocks.lock().unwrap().extend(mine);
                     let a = opt_to_i(finder.find(short));
                     let b = opt_to_i(finder.find(long));
                     let c = opt_to_i(rfinder.rfind(long));
@@ -496,6 +520,9 @@ pub fn conc_child(path: &str, threads: usize, seed: u64, rounds: usize) {
         let res = res.into_inner().unwrap();
         let mut o_short = Vec::new();
         let mut o_long = Vec::new();
+        for (tid, what, v) in blocks.into_inner().unwrap() {
+            o_long.push(obs(&format!("t{tid}.shared {what} (round {round})"), "find", json!(v), 0, false));
+        }
         for (tid, a, b, c, rest) in res {
             o_short.push(obs(&format!("t{tid}.shared Finder::find (round {round})"), "find", json!(a), 0, false));
             o_long.push(obs(&format!("t{tid}.shared Finder::find (round {round})"), "find", json!(b), 0, false));
